@@ -125,11 +125,38 @@ def factorings(base, rnd, limit):
                 pat = copy.deepcopy(base)
                 _set(pat, path, {"@z1": None, "p-arg1": leaf})
                 out.append(("param", [{"name": "@z1", "args": ["p-arg1"], "pattern": [body]}], pat))
+    # (e2) a repetition bound supplied through a macro argument (times: <formal>, min/max: <formal>)
+    for path, sub in paths:
+        if path and _in_list(path, base) and isinstance(sub, dict):
+            holders = [sub] if "times" in sub else [v for v in sub.values() if isinstance(v, dict) and "times" in v]
+            for h in holders:
+                t = h["times"]
+                spots = [("times", t)] if isinstance(t, int) else [(k, t[k]) for k in ("min", "max") if k in t]
+                for where, val in spots:
+                    body = copy.deepcopy(sub)
+                    hb = body if "times" in body else [v for v in body.values() if isinstance(v, dict) and "times" in v][0]
+                    if where == "times":
+                        hb["times"] = "p-cnt"
+                    else:
+                        hb["times"][where] = "p-cnt"
+                    pat = copy.deepcopy(base)
+                    _set(pat, path, {"@z1": None, "p-cnt": val})
+                    out.append(("param_times", [{"name": "@z1", "args": ["p-cnt"], "pattern": [body]}], pat))
     rnd.shuffle(out)
     first, seen = [], set()
+
+    def site_class(o):
+        """kind of factoring x kind of site the macro use sits in (list element, mapping value, mapping key, inside $deref)"""
+        uses = [(p_, s_) for p_, s_ in _paths(o[2]) if (isinstance(s_, str) and "@" in s_) or (isinstance(s_, dict) and any(isinstance(k, str) and k.startswith("@") for k in s_))]
+        cls = set()
+        for p_, s_ in uses:
+            parent = _get(o[2], p_[:-1]) if p_ else None
+            cls.add(("in_mapping_value" if isinstance(parent, dict) else "in_list") + ("_deref" if "$deref" in p_ else ""))
+        return (o[0],) + tuple(sorted(cls))
+
     for o in out:
-        if o[0] not in seen:
-            seen.add(o[0])
+        if site_class(o) not in seen:
+            seen.add(site_class(o))
             first.append(o)
     rest = [o for o in out if o not in first]
     # prefer parameterised factorings whose argument is a non-string (YAML int) value
